@@ -5,7 +5,7 @@
    structure, the reversal tick, the quadratic solve with both ceilings and the discarding of roots, statement by statement, with
    mpmath read as exact arithmetic) returns the specified answer for every request in the property's domain, for all integers; the
    implementation is compared with that model on every generated case. *)
-From Plotink Require Import Base.Prelude Spec.Firmware Spec.LmSpec Spec.LmCheck Model.EbbCalc Model.EbbCalcRnd Model.LmModel Model.LmModelRnd Proofs.LmProofs Proofs.LmModelProofs Proofs.LmRootRnd Base.Rnd Proofs.RndProofs.
+From Plotink Require Import Base.Prelude Spec.Firmware Spec.LmSpec Spec.LmCheck Model.EbbCalc Model.EbbCalcRnd Model.LmModel Model.LmModelRnd Model.LmModelFull Proofs.LmProofs Proofs.LmModelProofs Proofs.LmRootRnd Proofs.LmFullRnd Proofs.SqrtRnd Base.Rnd Proofs.RndProofs.
 Open Scope Z_scope.
 
 Theorem C03_checker_iff_spec : forall steps rate accel accum T p c,
@@ -107,6 +107,48 @@ Proof.
   apply C03_rounding; [intros x y; apply round_ne_comp; lia|intros x R; apply round_ne_exact; [lia|exact R]|intros x y; apply round_ne_mono; lia].
 Qed.
 
+(* every mpmath operation of calculate_lm rounded, in the order the source evaluates them (Model/LmModelFull.v): whenever the exact
+   model's answer has a duration of at most 2^32 ticks (the property's domain), the fully rounded computation returns that answer *)
+Theorem C03_full_rounding : forall rnd : Q -> Q,
+  (forall x y, (x == y)%Q -> (rnd x == rnd y)%Q) -> (forall x, rep103 x -> (rnd x == x)%Q) -> (forall x y, (x <= y)%Q -> (rnd x <= rnd y)%Q) ->
+  forall sq : Q -> Q,
+  (forall x, (0 <= x)%Q -> (0 <= sq x)%Q) ->
+  (forall K n, 0 <= K < 2 ^ 103 -> 0 <= n <= 52 -> (sq ((iz K / iz (2 ^ n)) * (iz K / iz (2 ^ n))) == iz K / iz (2 ^ n))%Q) ->
+  (forall x y, (0 <= x)%Q -> (x <= y)%Q -> (sq x <= sq y)%Q) ->
+  forall steps rate accel accum, Z.abs steps <= 2 ^ 31 -> Z.abs rate <= 2 ^ 31 -> Z.abs accel <= 2 ^ 31 ->
+  match accum with None => True | Some c => 0 <= c < 2 ^ 31 end ->
+  forall T p c, lm_model steps rate accel accum = (T, p, c) -> Z.abs T <= 2 ^ 32 ->
+  lm_model_full_r rnd sq steps rate accel accum = (T, p, c).
+Proof. exact lm_model_full_rounding. Qed.
+
+(* the executable square root (integer square root at the scale 2^-110 with a sticky bit, then round-to-nearest-even at 103 bits: the
+   correctly rounded root of every x >= 1/4, compared with mpmath.sqrt on every run) meets the three hypotheses *)
+Theorem C03_sqrt_ne_hypotheses :
+  (forall x, (0 <= x)%Q -> (0 <= sqrt_ne 110 103 x)%Q) /\
+  (forall K n, 0 <= K < 2 ^ 103 -> 0 <= n <= 52 -> (sqrt_ne 110 103 ((iz K / iz (2 ^ n)) * (iz K / iz (2 ^ n))) == iz K / iz (2 ^ n))%Q) /\
+  (forall x y, (0 <= x)%Q -> (x <= y)%Q -> (sqrt_ne 110 103 x <= sqrt_ne 110 103 y)%Q).
+Proof.
+  split; [intros x _; apply sqrt_ne_nonneg; lia|]. split; [intros K n HK Hn; apply sqrt_ne_exact; [lia|exact HK|lia]|].
+  intros x y Px L. apply sqrt_ne_mono; [lia|lia|exact Px|exact L].
+Qed.
+
+(* no hypothesis left: with the executable round-to-nearest-even and the executable square root - the operators the implementation's
+   outputs are compared with on every run (Corr/C03.v, Corr/Rounding.v) - the fully rounded calculate_lm is the exact model *)
+Theorem C03_full_rounding_rne : forall steps rate accel accum, Z.abs steps <= 2 ^ 31 -> Z.abs rate <= 2 ^ 31 -> Z.abs accel <= 2 ^ 31 ->
+  match accum with None => True | Some c => 0 <= c < 2 ^ 31 end ->
+  forall T p c, lm_model steps rate accel accum = (T, p, c) -> Z.abs T <= 2 ^ 32 ->
+  lm_model_full_r (round_ne 103) (sqrt_ne 110 103) steps rate accel accum = (T, p, c).
+Proof.
+  destruct C03_sqrt_ne_hypotheses as (H1 & H2 & H3).
+  apply C03_full_rounding; [intros x y; apply round_ne_comp; lia|intros x R; apply round_ne_exact; [lia|exact R]|intros x y; apply round_ne_mono; lia|exact H1|exact H2|exact H3].
+Qed.
+Example C03_full_rounding_nonvacuous :
+  lm_model_full_r (round_ne 103) (sqrt_ne 110 103) 1 9 (-1) (Some 0) = (18, -1, 2147483639) /\
+  lm_model_full_r (round_ne 103) (sqrt_ne 110 103) 26 110000000 40000000 None = (51, 26, 1795425152) /\
+  lm_model_full_r (round_ne 103) (sqrt_ne 110 103) (-5) 1000000000 0 None = (11, -5, 1884901887) /\
+  lm_model_full_r (round_ne 103) (sqrt_ne 110 103) 74838422 1500000000 (-7) (Some 1879980596) = lm_model 74838422 1500000000 (-7) (Some 1879980596).
+Proof. vm_compute. repeat split; reflexivity. Qed.
+
 Print Assumptions C03_checker_iff_spec.
 Print Assumptions C03_model_correct.
 Print Assumptions C03_model_meets_spec.
@@ -116,3 +158,6 @@ Print Assumptions C03_steps_closed_form.
 Print Assumptions C03_consequence.
 Print Assumptions C03_invalid.
 Print Assumptions C03_rounding_rne.
+Print Assumptions C03_full_rounding.
+Print Assumptions C03_full_rounding_rne.
+Print Assumptions C03_sqrt_ne_hypotheses.
